@@ -210,7 +210,7 @@ def eval_else(case) -> Verdict:
     items = list(range(n))
     idx = R.segment(n, dict(case.get("args", [])).get("offset", 0) or 0, dict(case.get("args", [])).get("limit"))
     visited = len(idx)
-    o = oc.outcome_of(lambda: env.from_string(src).render(items=items))
+    o = oc.render(case, lambda: env.from_string(src), items=items)
     if o[0] != "ok":
         v.fail(f"else:raises:{o[1]}", f"{src!r} items={items}: {oc.short(o)!r:.150}")
     elif tag == "for":
@@ -244,7 +244,7 @@ def eval_aborted(case) -> Verdict:
         bad = {"filter": "{{ 1 | divided_by: 0 }}", "limit": "{% for z in items limit: 'x' %}{% endfor %}", "break-ok": "{% break %}"}[case["bad"]]
         src0 = "x"
     src = tag_o + src0 + bad + tag_c + "{% for j in (1..2) %}[{{ forloop.parentloop.index }}|{{ forloop.parentloop.length }}|{{ forloop.index }}]{% endfor %}"
-    o = oc.outcome_of(lambda: env.from_string(src).render(items=[1, 2]))
+    o = oc.render(case, lambda: env.from_string(src), items=[1, 2])
     if o[0] != "ok":
         v.fail(f"aborted:raises:{o[1]}", f"{src!r}: {oc.short(o)!r:.150}")
     elif not o[1].endswith("[||1][||2]"):
@@ -264,7 +264,7 @@ def evaluate(case) -> Verdict:
     kind = case["kind"]
     if kind == "for":
         src, data, expected, asserted = _build_for(case)
-        o = oc.outcome_of(lambda: env.from_string(src).render(**data))
+        o = oc.render(case, lambda: env.from_string(src), **data)
         if o[0] == "crash":
             v.fail(f"for:crash:{o[1]}", f"{src} {data!r:.100}: {o[1]} at {o[2]}")
         elif o[0] == "liquid":
@@ -278,7 +278,7 @@ def evaluate(case) -> Verdict:
         v.labels.append("for" + ("" if asserted else ":not-asserted"))
     elif kind == "tablerow":
         src, data, rows, asserted = _build_tablerow(case)
-        o = oc.outcome_of(lambda: env.from_string(src).render(**data))
+        o = oc.render(case, lambda: env.from_string(src), **data)
         if o[0] == "crash":
             v.fail(f"tablerow:crash:{o[1]}", f"{src} {data!r:.100}: {o[1]} at {o[2]}")
         elif o[0] == "liquid":
